@@ -99,8 +99,22 @@ impl Prop for C11 {
             cfg.p_comment = 15;
             cfg.p_cdata = 15;
         }
-        let k = if sweep { 1 } else { rng.range(1, 4) };
-        let (_sk, docs) = gen_history(&mut rng, &cfg, k);
+        let deep = !sweep && rng.pct(3);
+        let k = if sweep || deep { 1 } else { rng.range(1, 4) };
+        let (_sk, mut docs) = gen_history(&mut rng, &cfg, k);
+        if deep {
+            // a deep chain (60..=200 levels) ending in an empty element: depth-dependent behaviour must not
+            // distinguish `<x/>` from `<x></x>` or one buffer size from another
+            let depth = rng.range(60, 199);
+            let mut cur = Elem::new("x");
+            cur.selfclose = rng.pct(50);
+            for i in (0..depth).rev() {
+                let mut e = Elem::new(&format!("n{}", i % 5));
+                e.kids.push(Node::Elem(cur));
+                cur = e;
+            }
+            docs = vec![Doc::plain(cur)];
+        }
         let mut alts = Vec::new();
         for d in &docs {
             let mut fired = Vec::new();
@@ -108,18 +122,18 @@ impl Prop for C11 {
         }
         let e = rng.u128();
         let base_steps: Vec<Step> = (0..k).map(|i| Step { input: Input::Doc(i), plan: Plan::slice(), cfg: 0 }).collect();
-        let mut replicas = vec![Replica { role: "baseline".into(), entropy: e, steps: base_steps }];
+        let mut replicas = vec![Replica { role: "baseline".into(), entropy: e, steps: base_steps, warmup: vec![] }];
         if sweep {
             // bounded sweep: every two-chunk split and byte-at-a-time delivery of one small document
             let b = docs[0].ser();
             for c in 1..b.len().min(400) {
                 let mut p = Plan::whole();
                 p.cuts = vec![c];
-                replicas.push(Replica { role: format!("split@{c}"), entropy: e, steps: vec![Step { input: Input::Doc(0), plan: p, cfg: 0 }] });
+                replicas.push(Replica { role: format!("split@{c}"), entropy: e, steps: vec![Step { input: Input::Doc(0), plan: p, cfg: 0 }], warmup: vec![] });
             }
             let mut p = Plan::whole();
             p.cuts = (1..b.len()).collect();
-            replicas.push(Replica { role: "byte-at-a-time".into(), entropy: e, steps: vec![Step { input: Input::Doc(0), plan: p, cfg: 0 }] });
+            replicas.push(Replica { role: "byte-at-a-time".into(), entropy: e, steps: vec![Step { input: Input::Doc(0), plan: p, cfg: 0 }], warmup: vec![] });
         } else {
             // channel twin: same bytes, another channel
             let mut st = Vec::new();
@@ -128,10 +142,10 @@ impl Prop for C11 {
                 let cfgbits = if rng.pct(40) { CFG_EXPAND_EMPTY } else { 0 };
                 st.push(Step { input: Input::Doc(i), plan: Plan::draw_transparent(&mut rng, &b), cfg: cfgbits });
             }
-            replicas.push(Replica { role: "channel-twin".into(), entropy: e, steps: st });
+            replicas.push(Replica { role: "channel-twin".into(), entropy: e, steps: st, warmup: vec![] });
             // rewrite twin: same structure, other incidental detail, plain channel
             let st: Vec<Step> = (0..k).map(|i| Step { input: Input::Alt(i), plan: Plan::slice(), cfg: 0 }).collect();
-            replicas.push(Replica { role: "rewrite-twin".into(), entropy: e, steps: st });
+            replicas.push(Replica { role: "rewrite-twin".into(), entropy: e, steps: st, warmup: vec![] });
             // composed twin: rewritten detail through another channel, some deliveries rewritten and some not
             let mut st = Vec::new();
             for i in 0..k {
@@ -144,7 +158,7 @@ impl Prop for C11 {
                     cfg: cfgbits,
                 });
             }
-            replicas.push(Replica { role: "composed-twin".into(), entropy: e, steps: st });
+            replicas.push(Replica { role: "composed-twin".into(), entropy: e, steps: st, warmup: vec![] });
         }
         let derive = rng.pick(&["Serialize, Deserialize", ""]).to_string();
         Scenario::Session(Session { docs, alts, replicas, opts: all_opts(&derive) })
